@@ -41,7 +41,8 @@ def pipeline_specs(draw, i):
     samples = draw(st.one_of(gen.shared_child_samples(universe), gen.shared_child_samples(universe),
                              gen.sample_lists(universe, max_samples=2, max_leaves=5)))
     opts = {"fw": draw(st.sampled_from(gen.FRAMEWORKS)), "nested": draw(st.sampled_from([True, True, False])),
-            "meta": draw(st.booleans()), "pic": draw(st.booleans())}
+            "meta": draw(st.booleans()), "pic": draw(st.booleans()), "max_literals": draw(st.sampled_from([0, 10, 16, 2])),
+            "unicode": draw(st.sampled_from([True, True, False]))}
     return {"samples": rename(samples, "_p%d" % i), "opts": opts}
 
 
